@@ -6,6 +6,9 @@ Rows are tuples over the column list COLS. Predicates are small ASTs:
   ('colcmp', col, op, col2)
   ('isnull', col) | ('notnull', col)
   ('in', col, [consts]) | ('notin', col, [consts])
+  ('equal_null', A, B) | ('isdistinct', A, B) | ('isnotdistinct', A, B)
+        NULL-safe comparisons EQUAL_NULL(A, B), A IS DISTINCT FROM B, A IS NOT DISTINCT FROM B; an operand A/B is
+        ('col', name) or ('const', value) (value may be None = the literal NULL). They are two-valued: never unknown.
   ('not', p) | ('and', p, q) | ('or', p, q)
 Truth values: True, False, None (unknown).
 """
@@ -47,6 +50,22 @@ def _or(a, b):
     return False
 
 
+def _same(a, b):
+    """NULL-safe equality (Snowflake EQUAL_NULL / IS NOT DISTINCT FROM): two NULLs are the same, a NULL and a value
+    are not, two values are the same iff they are equal. Never unknown."""
+    if a is None or b is None:
+        return a is None and b is None
+    return a == b
+
+
+def operand(o, row, cols=COLS):
+    return row[cols.index(o[1])] if o[0] == "col" else o[1]
+
+
+def operand_sql(o):
+    return o[1] if o[0] == "col" else lit(o[1])
+
+
 def ev(p, row, cols=COLS):
     if p is None:
         return True
@@ -71,6 +90,10 @@ def ev(p, row, cols=COLS):
         return r
     if t == "notin":
         return _not(ev(("in", p[1], p[2]), row, cols))
+    if t in ("equal_null", "isnotdistinct"):
+        return _same(operand(p[1], row, cols), operand(p[2], row, cols))
+    if t == "isdistinct":
+        return not _same(operand(p[1], row, cols), operand(p[2], row, cols))
     if t == "not":
         return _not(ev(p[1], row, cols))
     if t == "and":
@@ -109,6 +132,12 @@ def sql(p):
         return f"{p[1]} IN ({', '.join(lit(c) for c in p[2])})"
     if t == "notin":
         return f"{p[1]} NOT IN ({', '.join(lit(c) for c in p[2])})"
+    if t == "equal_null":
+        return f"EQUAL_NULL({operand_sql(p[1])}, {operand_sql(p[2])})"
+    if t == "isdistinct":
+        return f"{operand_sql(p[1])} IS DISTINCT FROM {operand_sql(p[2])}"
+    if t == "isnotdistinct":
+        return f"{operand_sql(p[1])} IS NOT DISTINCT FROM {operand_sql(p[2])}"
     if t == "not":
         return f"NOT ({sql(p[1])})"
     if t == "and":
